@@ -217,8 +217,14 @@ def wait_for(name, timeout=60):
 LATE_G = LATE_COMMON + r"""
 # G holds the library's lock file before the library exists (POSIX locks are per process: G's own handle can still take
 # it, and the release at the end of G's first session frees it for everybody)
-from molli._aux.lock import rwlock
-from fasteners import InterProcessReaderWriterLock
+try:
+    try:
+        from molli._aux.lock import rwlock
+    except ImportError:
+        from molli.aux import rwlock
+    from fasteners import InterProcessReaderWriterLock
+except Exception as e:          # the harness cannot build this schedule on this tree: inconclusive, not a finding
+    print(json.dumps({"error": "harness cannot find the lock helper: " + repr(e)})); sys.exit(0)
 gate = InterProcessReaderWriterLock(rwlock(path))
 assert gate.acquire_write_lock(timeout=20)
 touch("g_locked")
@@ -750,13 +756,20 @@ PROBE = r"""
 import sys, json
 sys.path[:0] = %(syspath)r
 from molli.storage import Collection, UkvCollectionBackend
-from molli._aux.lock import rwlock
-from fasteners import InterProcessReaderWriterLock
 path = %(path)r
-lk = InterProcessReaderWriterLock(rwlock(path))
-if not lk.acquire_write_lock(timeout=10):
-    print(json.dumps({"lock": "timeout"})); sys.exit(0)
-lk.release_write_lock()
+try:
+    try:
+        from molli._aux.lock import rwlock
+    except ImportError:
+        from molli.aux import rwlock
+    from fasteners import InterProcessReaderWriterLock
+    lk = InterProcessReaderWriterLock(rwlock(path))
+except Exception:
+    lk = None          # lock helper not where the harness expects it: the timed session below still decides
+if lk is not None:
+    if not lk.acquire_write_lock(timeout=10):
+        print(json.dumps({"lock": "timeout"})); sys.exit(0)
+    lk.release_write_lock()
 c = Collection(path, UkvCollectionBackend, readonly=False)
 with c.writing(timeout=10):
     c[%(newkey)r] = b"from-fresh-process"
